@@ -27,13 +27,12 @@ type timeSpec struct {
 func checkC20(c *Ctx) {
 	r := c.Run
 	r.Exhaustive = true
-	r.Explanation = "Decides the table clauses of C20 and three structural necessary conditions of its conversion clauses: the leap-second table equals the 18 published instants (+1 s each, strictly ascending), the GPS epoch constant is 1980-01-06T00:00:00Z, both conversion functions consult every entry of the table (loop index coverage), the EIRP coding table equals the specification and is strictly increasing with a guarded index, and no airtime computation scales up the result of a truncating integer division. It does NOT decide round-trip/monotonicity of the conversions, float arithmetic of the airtime formula or sensitivity numerics (runtime values; declined in DESIGN.md)."
+	r.Explanation = "Decides the table clauses of C20 and three structural necessary conditions of its conversion clauses: the leap-second table equals the 18 published instants (+1 s each, strictly ascending), the GPS epoch constant is 1980-01-06T00:00:00Z, the EIRP coding table equals the specification and is strictly increasing with a guarded index, and no airtime computation scales up the result of a truncating integer division. The GPS conversions themselves are decided exactly by the bit-level engine (rules R7: time.Time modelled as a 64-bit nanosecond count, every instant 1980-2100 at once): applied offset = published leap-second count, strict monotonicity, round trips in both directions. It does NOT decide the floating-point airtime formula or sensitivity numerics (declined in DESIGN.md)."
 	r.Trusted = []string{"go/types constant evaluation", "internal/tables evaluator", "spec/time.json transcription", "package time (Date, Before, Add, Sub)"}
 	r.Rule("R1.leap", "leapSecondsTable = the 18 published leap-second instants, Duration = 1 s each, strictly ascending")
 	r.Rule("R2.epoch", "gpsEpochTime = 1980-01-06 00:00:00 UTC")
 	r.Rule("R6.eirp-encode", "GetTXParamSetupEIRPIndex depends on the power only through comparisons with eirpTable entries, and on each of the 32 order types returns the largest index whose entry does not exceed the power")
 	r.Rule("R3.eirp", "eirpTable = 8,10,12,13,14,16,18,20,21,24,26,27,29,30,33,36 strictly increasing; decode index guarded")
-	r.Rule("R4.coverage", "each GPS conversion function visits every index of leapSecondsTable and applies ls.Duration under the ls.Time.Before(t) test")
 	r.Rule("R5.divmul", "in package airtime no integer product has a factor that is the result of a truncating non-constant integer division")
 	var spec timeSpec
 	if err := c.Spec("time.json", &spec); err != nil {
@@ -106,10 +105,6 @@ func checkC20(c *Ctx) {
 			}
 		}
 	}
-	// R4 coverage
-	for _, fn := range []string{"NewTimeFromTimeSinceGPSEpoch", "Time.TimeSinceGPSEpoch"} {
-		c20Coverage(c, gps.TypesInfo, load.FuncDecl(gps, fn), fn, lo, len(spec.Leap))
-	}
 	// R3 eirp
 	root := P.Pkg("")
 	ev2 := tables.NewEvaluator(root)
@@ -143,165 +138,10 @@ func checkC20(c *Ctx) {
 	}
 	c20EIRPEncode(c, ev2, tbl)
 	c20DivMul(c)
+	c20GPS(c, spec.Leap, spec.HMS)
 }
 
-// c20Coverage: the function must contain a loop over leapSecondsTable that visits every index.
-func c20Coverage(c *Ctx, info *types.Info, fd *ast.FuncDecl, name string, table types.Object, n int) {
-	r := c.Run
-	P := c.Prog
-	if fd == nil || table == nil {
-		r.Unknown("R4.coverage", "gps."+name, "", "anchor function present", "missing")
-		return
-	}
-	isTable := func(e ast.Expr) bool {
-		id, ok := unparen(e).(*ast.Ident)
-		return ok && info.Uses[id] == table
-	}
-	found := false
-	ast.Inspect(fd.Body, func(nd ast.Node) bool {
-		switch x := nd.(type) {
-		case *ast.RangeStmt:
-			if !isTable(x.X) {
-				return true
-			}
-			found = true
-			// full coverage unless the body can leave the loop early
-			early := ""
-			ast.Inspect(x.Body, func(m ast.Node) bool {
-				switch b := m.(type) {
-				case *ast.BranchStmt:
-					if b.Tok == token.BREAK || b.Tok == token.GOTO {
-						early = "break at " + P.Rel(b.Pos())
-					}
-				case *ast.ReturnStmt:
-					early = "return at " + P.Rel(b.Pos())
-				case *ast.FuncLit:
-					return false
-				}
-				return true
-			})
-			// an early exit is sound only for "first entry not before t" in an ascending table; not recognised -> refuse
-			r.Check(early == "", "R4.coverage", "gps."+name+"/range", P.Rel(x.Pos()), fmt.Sprintf("visits all %d entries", n), "range over the whole table"+map[bool]string{true: "", false: " but " + early}[early == ""], true)
-			var eobj types.Object
-			if eid, ok := x.Value.(*ast.Ident); ok {
-				eobj = info.Defs[eid]
-			}
-			var kobj types.Object
-			if kid, ok := x.Key.(*ast.Ident); ok {
-				kobj = info.Defs[kid]
-			}
-			c20Body(c, info, x.Body, name, func(e ast.Expr) bool {
-				if id, ok := unparen(e).(*ast.Ident); ok && eobj != nil {
-					return info.Uses[id] == eobj
-				}
-				if ix, ok := unparen(e).(*ast.IndexExpr); ok && kobj != nil && isTable(ix.X) {
-					id, ok := ix.Index.(*ast.Ident)
-					return ok && info.Uses[id] == kobj
-				}
-				return false
-			})
-		case *ast.ForStmt:
-			// counted loop indexing the table
-			uses := false
-			ast.Inspect(x.Body, func(m ast.Node) bool {
-				if ix, ok := m.(*ast.IndexExpr); ok && isTable(ix.X) {
-					uses = true
-				}
-				return true
-			})
-			if !uses {
-				return true
-			}
-			found = true
-			lo, hi, ok := countedLoopRange(info, x, table, n)
-			if !ok {
-				r.Unknown("R4.coverage", "gps."+name+"/for", P.Rel(x.Pos()), "recognisable counted loop over the table", "init/cond/post not of the form i:=a; i<b|i>=b; i++|i--")
-				return true
-			}
-			early := false
-			ast.Inspect(x.Body, func(m ast.Node) bool {
-				if b, ok := m.(*ast.BranchStmt); ok && b.Tok == token.BREAK {
-					early = true
-				}
-				if _, ok := m.(*ast.ReturnStmt); ok {
-					early = true
-				}
-				return true
-			})
-			if early {
-				// an early exit is only sound if the remaining entries are handled in bulk; the index range must
-				// still be complete, which is what is checked here
-			}
-			r.Check(lo == 0 && hi == n-1, "R4.coverage", "gps."+name+"/for", P.Rel(x.Pos()), fmt.Sprintf("visits indices 0..%d", n-1), fmt.Sprintf("visits indices %d..%d", lo, hi), true)
-			var iobj types.Object
-			if as, ok := x.Init.(*ast.AssignStmt); ok && len(as.Lhs) == 1 {
-				if iid, ok := as.Lhs[0].(*ast.Ident); ok {
-					iobj = info.Defs[iid]
-				}
-			}
-			locals := map[types.Object]bool{}
-			ast.Inspect(x.Body, func(m ast.Node) bool { // ls := leapSecondsTable[i]
-				if as, ok := m.(*ast.AssignStmt); ok && len(as.Lhs) == 1 && len(as.Rhs) == 1 {
-					if ix, ok := unparen(as.Rhs[0]).(*ast.IndexExpr); ok && isTable(ix.X) {
-						if id, ok := ix.Index.(*ast.Ident); ok && info.Uses[id] == iobj {
-							if lid, ok := as.Lhs[0].(*ast.Ident); ok && info.Defs[lid] != nil {
-								locals[info.Defs[lid]] = true
-							}
-						}
-					}
-				}
-				return true
-			})
-			c20Body(c, info, x.Body, name, func(e ast.Expr) bool {
-				if id, ok := unparen(e).(*ast.Ident); ok {
-					return locals[info.Uses[id]]
-				}
-				if ix, ok := unparen(e).(*ast.IndexExpr); ok && isTable(ix.X) {
-					id, ok := ix.Index.(*ast.Ident)
-					return ok && iobj != nil && info.Uses[id] == iobj
-				}
-				return false
-			})
-		}
-		return true
-	})
-	if !found {
-		r.Unknown("R4.coverage", "gps."+name, P.Rel(fd.Pos()), "a loop over leapSecondsTable", "none found")
-	}
-}
 
-// c20Body: inside the range body, the only conditional is <elem>.Time.Before(x) and the update uses <elem>.Duration.
-func c20Body(c *Ctx, info *types.Info, body *ast.BlockStmt, name string, isElem func(ast.Expr) bool) {
-	r := c.Run
-	P := c.Prog
-	isElemField := func(e ast.Expr, f string) bool {
-		sel, ok := unparen(e).(*ast.SelectorExpr)
-		if !ok || sel.Sel.Name != f {
-			return false
-		}
-		return isElem(sel.X)
-	}
-	nIf, okIf, okUpd := 0, false, false
-	ast.Inspect(body, func(n ast.Node) bool {
-		switch x := n.(type) {
-		case *ast.IfStmt:
-			nIf++
-			if call, ok := x.Cond.(*ast.CallExpr); ok {
-				if sel, ok := call.Fun.(*ast.SelectorExpr); ok && sel.Sel.Name == "Before" && isElemField(sel.X, "Time") {
-					if fn := calleeFunc(info, call); fn != nil && fn.Pkg() != nil && fn.Pkg().Path() == "time" {
-						okIf = true
-					}
-				}
-			}
-		case *ast.SelectorExpr:
-			if isElemField(x, "Duration") {
-				okUpd = true
-			}
-		}
-		return true
-	})
-	r.Check(nIf == 1 && okIf && okUpd, "R4.coverage", "gps."+name+"/body", P.Rel(body.Pos()), "single test ls.Time.Before(t) guarding an update by ls.Duration", fmt.Sprintf("ifs=%d before-test=%v uses-duration=%v", nIf, okIf, okUpd), true)
-}
 
 // countedLoopRange recognises i := a; i < b | i <= b | i > b | i >= b; i++ | i-- with constant or len(table)±k bounds.
 func countedLoopRange(info *types.Info, x *ast.ForStmt, table types.Object, n int) (lo, hi int, ok bool) {
